@@ -1692,7 +1692,13 @@ class AbsPaths:
                 st[key] = v
             return
         if p["p"]:
-            st.pop(p["l"], None)
+            # a store into part of a known value (`self.error = Some(e)` through `&mut self`): evaluate the right-hand side
+            # and rebuild the enclosing value; anything not understood makes the enclosing location unknown
+            sub = dict(s)
+            sub["p"] = {"l": -999999, "p": []}
+            tmp = dict(st)
+            self._assign(tmp, sub)
+            self._store(st, p, tmp.get(-999999))
             return
         r = s["r"]
         k = r["k"]
@@ -1761,6 +1767,45 @@ class AbsPaths:
             st.pop(p["l"], None)
         else:
             st[p["l"]] = val
+
+    def _store(self, st, p, val):
+        loc = p["l"]
+        path = []
+        for e in p["p"]:
+            if e == "*":
+                cur = st.get(loc)
+                for f in path:
+                    cur = dict(cur[2]).get(f) if cur is not None and cur[0] == "variant" else None
+                if cur is not None and cur[0] in ("ref", "refmut"):
+                    loc, path = cur[1], []
+                    continue
+                st.pop(loc, None)
+                return
+            if isinstance(e, dict) and "d" in e:
+                continue
+            if isinstance(e, dict) and "f" in e:
+                path.append(e["f"])
+                continue
+            st.pop(loc, None)
+            return
+
+        def put(v, fs):
+            if not fs:
+                return val
+            if v is None or v[0] != "variant":
+                return None
+            fields = dict(v[2])
+            nv = put(fields.get(fs[0]), fs[1:])
+            if nv is None:
+                fields.pop(fs[0], None)
+            else:
+                fields[fs[0]] = nv
+            return ("variant", v[1], tuple(sorted(fields.items())))
+        nv = put(st.get(loc), path)
+        if nv is None:
+            st.pop(loc, None)
+        else:
+            st[loc] = nv
 
     def _call(self, st, t):
         site = CallSite(self.fn, -1, t)
